@@ -24,6 +24,10 @@ ASSUME = [
 CUSTOM_IMPLS = {
     'X2OUT': 'input(A,B) output(Y,Z) Y=AND2(A,B) Z=XOR2(A,B)',
     'XOUTREAD': 'input(A,B) output(Y,Z) Y=NAND2(A,B) Z=INV1(Y)',
+    'XOUTREAD2': 'input(A) output(Y1,Y2) Y2=INV1(A) Y1=BUF1(Y2)',
+    'XOUTREAD3': 'input(A,B) output(Y1,Y2,Y3) Y3=NOR2(A,B) Y2=INV1(Y3) Y1=AND2(Y2,A)',
+    'XOVERLAP': 'input(A,B) output(Y,Z) T=AND2(A,B) Y=INV1(T) Z=BUF1(T)',
+    'XPASS': 'input(A) output(Y,Z) Y=BUF1(A) Z=INV1(Y)',
     'XIGN': 'input(A,B,C) output(Y) Y=OR2(A,C)',
     'XFAN': 'input(A,B) output(Y,Z) T=AND2(A,B) Y=OR2(A,T) Z=XNOR2(A,B)',
     'XNOOUT': 'input(A)',
@@ -147,6 +151,14 @@ def compare(rep, before_names, expected, after, what, data):
     """expected: {s position: term} built over variables named like lanes.symbolize(tag='i') does; after: transformed circuit."""
     names_after = [n.name if (n.circuit is after and n.index < len(after.nodes) and after.nodes[n.index] is n) else f'<{n.name}: not in circuit>' for n in after.s_nodes]
     if names_after != before_names:
+        # is it only a permutation among the state elements (ports untouched), with the function preserved element by element?
+        np_ = len(after.io_nodes)
+        if names_after[:np_] == before_names[:np_] and sorted(names_after[np_:]) == sorted(before_names[np_:]) and len(set(before_names)) == len(before_names) and expected:
+            perm = [before_names.index(nm) for nm in names_after]           # position j after <- position perm[j] before
+            subs = [(z3.BitVec(f'i{perm[j]}_p0_b0', 8), z3.BitVec(f'i{j}_p0_b0', 8)) for j in range(len(perm))]
+            exp2 = {j: z3.substitute(expected[perm[j]], *subs) for j in range(len(perm)) if perm[j] in expected}
+            if compare(rep, names_after, exp2, after, what, data) is None:
+                return ('names-permuted', f'{what}: state elements change their order in s_nodes from {before_names[np_:]} to {names_after[np_:]} (ports and, element by element, the function are preserved)')
         return ('names', f'{what}: ports/state elements changed from {before_names} to {names_after}')
     if not expected:
         rep.counts['obligations'] += 1; rep.counts['discharged'] += 1
@@ -223,6 +235,11 @@ def finish(rep, res, data, key, name):
     ok, what = replay(d)
     if ok and kind == 'function' and explained_by_sized(d):
         key, what = 'shape=sized-and-trailing-open-pin', f'{name}: {what} (sized AND/NAND primitive with a trailing open pin takes its arity from the connected pins instead of reading 0)'
+    if ok and kind == 'names-permuted':
+        removes_nodes = data.get('mode') == 'subst' or 'elim' in data.get('seq', [])
+        kind = 'names'
+        if removes_nodes:          # Node.remove() moves the node with the highest index into the freed position (documented); s_nodes follows node order
+            key, kind, what = 'order=state-elements-permuted-by-node-removal', 'function', f'{name}: {payload}'
     if ok and kind == 'names' and data.get('mode') == 'subst' and not any(data['out_mask']) and 'not in circuit' not in what and "'u'" in what.split('->')[0] and "'u'" not in what.split('->')[-1]:
         key, kind = 'shape=state-cell-with-all-outputs-open-removed', 'function'
     if ok: rep.violation(key if kind == 'function' else key + '/s_nodes', what, d)
@@ -283,7 +300,11 @@ def subst_item(item):
     try:
         res = compare(rep, names, expected, after, f'{libname}.{kind}', data)
     except Exception as e:
-        rep.error(f'{libname}.{kind} simulate after resolve: {type(e).__name__}: {e}')
+        d = dict(data, in_bytes=[])
+        try: ok, what = replay(d)
+        except Exception as e2: ok, what = True, f'the resolved circuit cannot be simulated: {type(e2).__name__}: {e2} (ports {[n.name for n in after.io_nodes]}, {len(after.nodes)} nodes left)'
+        if ok: rep.violation(finding_key(libname, kind, 'function'), f'{libname}.{kind} inputs connected {list(in_mask)} outputs {list(out_mask)}: {what}', d)
+        else: rep.error(f'{libname}.{kind} simulate after resolve: {type(e).__name__}: {e}')
         return rep
     finish(rep, res, data, finding_key(libname, kind, 'function'), kind)
     if res is None: rep.sample({'lib': libname, 'cell': kind, 'connected_inputs': list(in_mask), 'connected_outputs': list(out_mask), 'post': list(post), 'verdict': 'unsat'}, limit=5)
@@ -353,7 +374,7 @@ def jobs(tier, seed):
     seqs = [s for n in (1, 2) for s in itertools.product(TRANSFORMS, repeat=n)]
     if tier == 'thorough': seqs += list(itertools.product(TRANSFORMS, repeat=3))
     for j, nl in enumerate(nls):
-        for style in (('verilog', 'bench', 'lean', 'vbf') if tier == 'thorough' else (('verilog', 'bench', 'lean', 'vbf')[j % 4],)):
+        for style in (('verilog', 'bench', 'lean', 'vbf', 'bench2') if tier == 'thorough' else (('verilog', 'bench2', 'bench', 'lean', 'vbf')[j % 5],) if j >= len(netlist.g2_shapes()) else ('verilog', 'bench2', 'lean')):
             for seq in seqs: J.append(('seq', (('nl', nl.to_json(), style), seq)))
     for r in netlist.G4:
         for seq in (('copy',), ('pickle',), ('elim',), ('elim', 'copy', 'pickle')): J.append(('seq', (r, seq)))
